@@ -85,7 +85,9 @@ def run(ctx: Ctx):
     ctx.note(f"gate table: { {f'{s}/{d}': o for (s, d), o in table.items()} }")
     expect = {("PEER_CONNECTED", "receiver"): "CE-request", ("PEER_CONNECTED", "sender"): "CE-answer",
               ("PEER_CLOSING", "receiver"): "none", ("PEER_CLOSING", "sender"): "none",
-              ("PEER_CLOSED", "receiver"): "none", ("PEER_CLOSED", "sender"): "none"}
+              ("PEER_CLOSED", "receiver"): "none", ("PEER_CLOSED", "sender"): "none",
+              # before its own CER has been sent (socket still connecting) nothing is processed
+              ("PEER_CONNECTING", "receiver"): "none", ("PEER_CONNECTING", "sender"): "none"}
     for s in ("PEER_READY", "PEER_READY_WAITING_DWA", "PEER_DISCONNECTING"):
         expect[(s, "receiver")] = expect[(s, "sender")] = "all"
     for key, want in expect.items():
@@ -93,8 +95,11 @@ def run(ctx: Ctx):
         ctx.inst(cons, sample={"state": key[0], "direction": key[1], "outcome": table[key]})
         if table[key] != want:
             why = {
-                "none": "a connection that is closing still hands received messages to the node "
-                        "(a request pipelined behind a rejected CER reaches an application)",
+                "none": ("a connection whose socket is still connecting (own CER not yet sent) hands "
+                         "received messages to the node: a DWR is answered / a request delivered "
+                         "before the capabilities exchange has started") if key[0] == "PEER_CONNECTING"
+                else "a connection that is closing still hands received messages to the node "
+                     "(a request pipelined behind a rejected CER reaches an application)",
                 "all": "messages are not processed in this state (e.g. the DPA after our DPR is dropped)",
             }.get(want, "before its capabilities exchange has succeeded the connection processes "
                         "messages other than a capabilities-exchange message of the expected direction")
